@@ -1,16 +1,37 @@
 use oxidd::{BooleanFunction, Manager, ManagerRef};
-use vh::kinds::*;
 fn main() {
-    type F = <Zbdd as BoolKind>::F;
-    for cache in [1usize, 1024] {
-        let mref = setup::<Zbdd>(1 << 12, cache, 1, 2);
-        let f = mref.with_manager_shared(|m| F::t(m));
-        let c1 = mref.with_manager_shared(|m| F::var(m, 0).unwrap());
-        let r1 = f.restrict(&c1).unwrap();
-        println!("cache={cache} before: f={} restrict(f, x0) = {}", interp_tt::<Zbdd>(&f), interp_tt::<Zbdd>(&r1));
-        mref.with_manager_exclusive(|m| m.add_vars(1));
-        let c2 = mref.with_manager_shared(|m| F::var(m, 0).unwrap().and(&F::not_var(m, 2).unwrap()).unwrap());
-        let r2 = f.restrict(&c2).unwrap();
-        println!("cache={cache} after add_vars(1): f={} restrict(f, x0 & !x2) = {} (want 3v:0xff)", interp_tt::<Zbdd>(&f), interp_tt::<Zbdd>(&r2));
+    type F = oxidd::bdd::BDDFunction;
+    for cap in [100usize, 1000, 65535, 65536, 65537, 70000, 131072, 131080, 150000] {
+        let mref = oxidd::bdd::new_manager(cap, 1 << 12, 1);
+        mref.with_manager_exclusive(|m| { m.add_vars(24); });
+        let mut keep: Vec<F> = Vec::new();
+        // pool: functions over variables 8..24
+        let pool: Vec<F> = mref.with_manager_shared(|m| {
+            let mut p = Vec::new();
+            for a in 8..24u32 { for b in (a+1)..24u32 {
+                if let Ok(f) = F::var(m, a).and_then(|x| x.and(&F::var(m, b)?)) { p.push(f); }
+                if let Ok(f) = F::var(m, a).and_then(|x| x.or(&F::var(m, b)?)) { p.push(f); }
+            }}
+            p
+        });
+        let mut rounds = Vec::new();
+        let mut k = 0usize;
+        for _round in 0..3 {
+            mref.with_manager_shared(|m| {
+                m.gc();
+                loop {
+                    let top = (k / (pool.len() * pool.len())) as u32;
+                    if top >= 8 { break; }
+                    let i = k % pool.len(); let j = (k / pool.len()) % pool.len();
+                    k += 1;
+                    if i == j { continue; }
+                    let Ok(x) = F::var(m, top) else { if cap <= 1000 { println!("  var({top}) failed with {} stored", m.num_inner_nodes()); } break };
+                    match x.ite(&pool[i], &pool[j]) { Ok(f) => keep.push(f), Err(_) => { if cap <= 1000 { println!("  ite failed with {} stored (approx {})", m.num_inner_nodes(), m.approx_num_inner_nodes()); } break } }
+                }
+            });
+            let stored = mref.with_manager_shared(|m| { m.gc(); m.num_inner_nodes() });
+            rounds.push(stored);
+        }
+        println!("cap {cap}: pool {} stored after rounds {rounds:?}", pool.len());
     }
 }
